@@ -77,6 +77,9 @@ def check_case(case, ctx=None):
                 refs[ri] = RX.execute(eff, req["text"], req["variables"], w, req["operation_name"])
             except RX.RequestError as e:
                 refs[ri] = e
+            except RX.Unspecified:
+                valid[ri] = False
+                continue
         ref = refs[ri]
         world = H.LibWorld(eff, wj["salt"], wj["p_err"], wj["p_null"], wj["p_null_item"])
         try:
